@@ -35,6 +35,8 @@ package plugin
 //@   writers NewClient
 
 //@ func (*SecureConfig).Check
+//@   at call (hash.Hash).Sum#1 assert cap(arg0) == 0 && recv == s.Hash   [C13.iff]
+//@   at call subtle.ConstantTimeCompare#1 assert arg1 == s.Checksum   [C13.iff]
 //@   nopanic [C13.total]
 //@   bounded always [C01.e]
 //@   wait call io.Copy#1 reads a regular local file into a hash: bounded by the file's size
@@ -96,6 +98,7 @@ package plugin
 //@   loop#1 invariant cap(versionStrings) == 0 || fresh(versionStrings)
 //@   loop#1 invariant 0 <= rpos1 && rpos1 <= rn1 && len(versionStrings) == rpos1 && rdom1 == domain(c.config.VersionedPlugins)
 //@   loop#1 invariant forall j :: 0 <= j && j < rpos1 ==> versionStrings[j] == itoa(rkeys1[j])
+//@   at call strings.Join#1 assert rdom1 == domain(c.config.VersionedPlugins)   [C17.versions] [C02.env]
 //@   at call strings.Join#1 assert arg1 == "," && len(arg0) == rn1 && (forall j :: 0 <= j && j < rn1 ==> arg0[j] == itoa(rkeys1[j]))   [C17.versions] [C02.env]
 //@   after call strings.Join#1 bind joined: Str := ret
 //@   at store exec.Cmd.Env#2 assert env_ok(c, seq(value), joined)   [C17.base]
@@ -336,6 +339,7 @@ package plugin
 //@   at call (*sync.Mutex).Unlock#1 bind d0: Str := c.unixSocketCfg.socketDir
 //@   after select#2 set grace := index == 0
 //@   at call (runner.AttachedRunner).Kill#1 assert arg0 == ctx_background   [C04.force] [C05.kill]
+//@   at go#1 assert cap(cap_closed) == 1   [C04.bounded]
 //@   ensures !held(c.l)   [C19.lock]
 //@   ensures launches == old(launches) && rf_calls == old(rf_calls)   [C19.kill]
 //@   ensures r0 == nil || runner_id(r0) == "" ==> kills == old(kills) && removed == old(removed) && waited == old(waited) && launches == old(launches)   [C04.noop]
@@ -596,6 +600,7 @@ package plugin
 //@   at store muxBrokerPending.ch#1 set ch_owner := ch_owner[value := object]
 //@   ensures !held(m.Mutex)   [C09.balance]
 //@   ensures result != nil && pkey[result] == id && result.ch != nil && result.doneCh != nil && ch_owner[result.ch] == result && !closed(result.ch)   [C06.slot]
+//@   at store muxBrokerPending.ch#1 assert cap(value) == 1   [C06.slot] [C09.own]
 
 //@ func (*MuxBroker).NextId
 //@   nopanic [C06.total]
@@ -831,6 +836,7 @@ package plugin
 //@   ensures result.clientStreams != nil && result.serverStreams != nil && (forall k :: !(k in result.clientStreams) && !(k in result.serverStreams))   [C07.new]
 
 //@ func (*GRPCBroker).getClientStream
+//@   at store gRPCBrokerPending.ch#1 assert cap(value) == 1   [C07.file] [C09.own]
 //@   nopanic [C07.total] [C20.nopanic]
 //@   nonblocking
 //@   requires !held(m.Mutex)
@@ -841,6 +847,7 @@ package plugin
 //@   ensures gpending_ok(result, id)   [C07.file]
 
 //@ func (*GRPCBroker).getServerStream
+//@   at store gRPCBrokerPending.ch#1 assert cap(value) == 1   [C07.file] [C09.own]
 //@   nopanic [C08.total] [C20.nopanic]
 //@   nonblocking
 //@   requires !held(m.Mutex)
